@@ -80,6 +80,66 @@ func main() {
 			cl.Close()
 		}(w)
 	}
+	// every kind of session-state change of a connection, in a tight loop, against introspection of all
+	// connections by two others: the paths taken rarely in the mixed workload above (aborted and
+	// rejected transactions, UNWATCH, DISCARD, protocol and name changes) are taken thousands of times
+	for w := 0; w < 2; w++ {
+		wg.Add(2)
+		go func(w int) {
+			defer wg.Done()
+			cl := vs.NewClient()
+			defer cl.Close()
+			other := vs.NewClient()
+			defer other.Close()
+			d := func(c *redisemu.VerifClient, a ...string) { c.Dispatch(toArgv(a)); atomic.AddInt64(&ops, 1) }
+			k := fmt.Sprintf("sess%d", w)
+			for i := 0; time.Now().Before(deadline); i++ {
+				switch i % 9 {
+				case 0: // executed transaction
+					d(cl, "WATCH", k)
+					d(cl, "MULTI")
+					d(cl, "SET", k, "1")
+					d(cl, "EXEC")
+				case 1: // rejected while queueing
+					d(cl, "WATCH", k)
+					d(cl, "MULTI")
+					d(cl, "NOSUCHCOMMAND")
+					d(cl, "EXEC")
+				case 2: // aborted by a watched key
+					d(cl, "WATCH", k)
+					d(other, "SET", k, "2")
+					d(cl, "MULTI")
+					d(cl, "GET", k)
+					d(cl, "EXEC")
+				case 3:
+					d(cl, "WATCH", k, "x", "y")
+					d(cl, "UNWATCH")
+				case 4:
+					d(cl, "WATCH", k)
+					d(cl, "MULTI")
+					d(cl, "DISCARD")
+				case 5:
+					d(cl, "SELECT", fmt.Sprint(i%3))
+				case 6:
+					d(cl, "HELLO", fmt.Sprint(2+i%2))
+				case 7:
+					d(cl, "CLIENT", "SETNAME", fmt.Sprintf("n%d", i%5))
+				default:
+					d(cl, "MULTI")
+					d(cl, "EXEC")
+				}
+			}
+		}(w)
+		go func(w int) {
+			defer wg.Done()
+			cl := vs.NewClient()
+			defer cl.Close()
+			for i := 0; time.Now().Before(deadline); i++ {
+				cl.Dispatch(toArgv([][]string{{"CLIENT", "LIST"}, {"CLIENT", "INFO"}, {"INFO"}, {"DBSIZE"}}[i%4]))
+				atomic.AddInt64(&ops, 1)
+			}
+		}(w)
+	}
 	// blocked consumers and their pushers, plus CLIENT UNBLOCK
 	for w := 0; w < 3; w++ {
 		wg.Add(2)
